@@ -89,6 +89,10 @@ def sweep(tier="quick", seed=0, unsupported=()):
 
 
 def replay(contract, label, model, note=""):
+    if contract.startswith("Conv2D.layouts"):
+        from . import connections as _cx
+
+        return _cx.replay_layouts(model)
     r = sweep("quick", 0)
     if r["failures"]:
         return {"reproduced": True, "failure": r["failures"][0], "concrete": r["failures"][0]["input"]}
